@@ -5,6 +5,7 @@ import QuiverModel.Lemmas.Packaging.ValueInstrs
 import QuiverModel.Lemmas.Packaging.Inject
 import QuiverModel.Lemmas.Packaging.Nested
 import QuiverModel.Lemmas.Packaging.Canon
+import QuiverModel.Lemmas.Packaging.Mark
 /-
 C10 — packaging steps preserve behaviour (property theorems).
 
@@ -552,6 +553,145 @@ theorem injectCaptures_prelude_nested {P P2 : Prog} {f g : Nat} {caps : List Val
 example : ∃ P2 g, injectCaptures exP 2 [.int 5, .tuple 2 [.int 6]] = some (P2, g) ∧
     (P2.fns[g]?).map (·.instrs) = some [.const 2, .store, .const 3, .tuple 2, .store, .tuple 2] := by
   refine ⟨_, _, rfl, ?_⟩
+  decide
+
+end C10
+
+/-! ## `tree_shake` itself, for every program -/
+
+namespace C10
+open QM QM.Packaging
+
+/-- **(T1, structural part) — for EVERY program and entry.** Whenever the port of `tree_shake` returns
+    (the Rust does not index out of range on a dangling id), the shaken program is a structural renaming
+    of the original by the rank tables the sweep builds: entry ↦ entry, every kept function is the
+    instruction-by-instruction image of the original, its callable type / every kept constant, tuple,
+    builtin and type entry is the image of the original entry, all five tables are injective, NIL and OK
+    keep ids 0 and 1. Proved from the mark phase (`markAll_closed`: the marks are closed under reference —
+    a fixpoint argument over the guarded mutual recursion of `collect_type_refs` / `collect_tuple_refs`,
+    the BFS, the builtin pass and the index-only pass) and the sweep phase (`sweep_structRenaming`). The
+    port is tied to optimisation.rs by exact equality of the produced bytecode on every program the
+    harness packages (`shake:model-equals-tree_shake`). -/
+theorem treeShake_structRenaming {P : Prog} {e : Nat} {out : ShakeOut} (h : treeShake P e = some out) :
+    IsStructRenaming out.ren P out.prog e out.entry := by
+  unfold treeShake treeShakeWith at h
+  split at h
+  · cases h
+  · rename_i m hm
+    exact (sweep_structRenaming h (markAll_closed hm)).2
+
+/-- the same for the sweep before 5a04882 — it is a structural renaming too: what it loses is not
+    structure but a *table row* (see `legacy_shake_loses_process_entry`) -/
+theorem treeShakeLegacy_structRenaming {P : Prog} {e : Nat} {out : ShakeOut}
+    (h : treeShakeWith true P e = some out) : IsStructRenaming out.ren P out.prog e out.entry := by
+  unfold treeShakeWith at h
+  split at h
+  · cases h
+  · rename_i m hm
+    exact (sweep_structRenaming h (markAll_closed hm)).2
+
+/-- The three run-time tables `tree_shake` does not produce (the loader recomputes them from the shaken
+    type table): what remains to be known about them — per instance by `validateB`, in general by C08's
+    `rename_invariant` — for the shaken program to be a full `IsRenaming`. -/
+structure TablesAgree (ρ : Ren) (P P' : Prog) : Prop where
+  compat : ∀ f f' F, ρ.fn.get f = some f' → P.fns[f]? = some F → ∀ t, t ∈ isTypeOps F.instrs →
+    ∀ t', ρ.type.get t = some t' → ∀ c c', renameTag ρ c = some c' → P.tagPresent c = true →
+      P.isCompat t c = P'.isCompat t' c'
+  fparam : ∀ f f', ρ.fn.get f = some f' → ∀ c c', renameTag ρ c = some c' → P.tagPresent c = true →
+    P.msgCompatFn f c = P'.msgCompatFn f' c'
+  bparam : ∀ b b', ρ.builtin.get b = some b' → ∀ c c', renameTag ρ c = some c' → P.tagPresent c = true →
+    P.msgCompatBuiltin b c = P'.msgCompatBuiltin b' c'
+  resources : ∀ r r', ρ.resource.get r = some r' → ∃ n, P.resources[r]? = some n ∧ P'.resources[r']? = some n
+
+/-- **(T1) Shaking preserves behaviour for all programs, inputs and execution lengths.** `P'` is the
+    shaken bytecode as loaded (same six tables as `treeShake` produced, plus the recomputed lookup
+    tables). If the canonical-tuple tables are the computed ones and the compatibility tables agree
+    through the sweep's renaming (`TablesAgree`), then `P'` is a full `IsRenaming` of `P`, hence every run
+    of `P` from the entry is matched step for step by a related run of `P'`
+    (`run_commutes_with_renaming`). -/
+theorem treeShake_isRenaming {P P' : Prog} {e : Nat} {out : ShakeOut} (h : treeShake P e = some out)
+    (hfns : P'.fns = out.prog.fns) (hconsts : P'.consts = out.prog.consts) (htuples : P'.tuples = out.prog.tuples)
+    (hbuiltins : P'.builtins = out.prog.builtins) (htypes : P'.types = out.prog.types)
+    (hc : P.CanonComputed) (hc' : P'.CanonComputed) (ht : TablesAgree out.ren P P') :
+    IsRenaming out.ren P P' e out.entry := by
+  have hs := treeShake_structRenaming h
+  have hs' : IsStructRenaming out.ren P P' e out.entry :=
+    { entry := hs.entry, inj_const := hs.inj_const, inj_fn := hs.inj_fn, inj_tuple := hs.inj_tuple,
+      inj_type := hs.inj_type, inj_builtin := hs.inj_builtin, nil_fixed := hs.nil_fixed, ok_fixed := hs.ok_fixed,
+      fns := by rw [hfns]; exact hs.fns
+      consts := by rw [hconsts]; exact hs.consts
+      tuples := by rw [htuples]; exact hs.tuples
+      builtins := by rw [hbuiltins]; exact hs.builtins
+      types := by rw [htypes]; exact hs.types }
+  exact hs'.toIsRenaming ht.resources ht.compat ht.fparam ht.bparam
+    (canon_of_name_label_preservation hc hc' hs'.tuples)
+
+theorem treeShake_preserves_behaviour {P P' : Prog} {e : Nat} {out : ShakeOut} (h : treeShake P e = some out)
+    (hfns : P'.fns = out.prog.fns) (hconsts : P'.consts = out.prog.consts) (htuples : P'.tuples = out.prog.tuples)
+    (hbuiltins : P'.builtins = out.prog.builtins) (htypes : P'.types = out.prog.types)
+    (hc : P.CanonComputed) (hc' : P'.CanonComputed) (ht : TablesAgree out.ren P P')
+    {B B' : BuiltinSem} (hB : BuiltinsCommute out.ren B B') {a a' : Val} (ha : RelVal out.ren a a') {t : St}
+    (hrun : Steps P B (St.start e a) t) (hsafe : ∀ u, Steps P B (St.start e a) u → IsTypeSafe P u) :
+    ∃ t', Steps P' B' (St.start out.entry a') t' ∧ RelSt out.ren t t' := by
+  have hρ := treeShake_isRenaming h hfns hconsts htuples hbuiltins htypes hc hc' ht
+  exact run_commutes_with_renaming hρ hB hrun (start_related hρ ha) hsafe
+
+/-- Statement of (T1) in the form "the validator accepts", (T2) idempotence and (T3) exactness, for
+    the record. Proved: the structural part of T1 for every program (`treeShake_structRenaming`), T1
+    modulo `TablesAgree` (`treeShake_isRenaming`), closure of the marks (`markAll_closed`); the driver
+    checks per instance that `validateB` accepts the port's own renaming against the real tables and that
+    shaking the shaken program returns it unchanged. NOT proved: (a) `TablesAgree` in general (needs a
+    model of `compute_type_compatibility`, i.e. C08/C09's `rename_invariant`); (b) idempotence (T2) and
+    "everything kept is reachable" (T3, ⊆) — both need the converse invariant of the mark phase (every
+    mark is justified by a reference path from the entry, NIL/OK, or the index-only rule). -/
+def TreeShakeStatement : Prop :=
+  ∀ (P : Prog) (e : Nat) (out : ShakeOut), treeShake P e = some out →
+    -- T2: shaking again changes nothing and renames by the identity
+    (∀ out2, treeShake out.prog out.entry = some out2 →
+      bytecodeDiff out2.prog out.prog = none ∧ out2.entry = out.entry ∧ ∀ f f', out2.ren.fn.get f = some f' → f' = f) ∧
+    -- T3 (⊇): the marks are closed under reference — everything reachable is kept
+    Closed P e out.marks
+
+/-- the part of the statement that is proved: T3 (⊇) -/
+theorem treeShake_keeps_everything_reachable {P : Prog} {e : Nat} {out : ShakeOut} (h : treeShake P e = some out) :
+    out.ren = shakeRen P out.marks ∧ Closed P e out.marks := by
+  unfold treeShake treeShakeWith at h
+  split at h
+  · cases h
+  · rename_i m hm
+    have hc := markAll_closed hm
+    have hr := (sweep_structRenaming h hc).1
+    have hmarks : out.marks = m := by
+      simp only [sweep] at h
+      split at h
+      · split at h
+        · cases h
+        · cases h; rfl
+      · cases h
+    rw [hmarks]
+    exact ⟨by rw [hr], hc⟩
+
+/-- A spawning program in miniature: the entry spawns function 1, whose callable type (entry 1) receives
+    and returns `'int`; the process type of the pids it creates is entry 2 — named by no instruction
+    (index-only). -/
+def exF13 : Prog :=
+  { consts := #[],
+    fns := #[{ instrs := [.function 1, .spawn], captures := 0, typeId := 1 },
+             { instrs := [], captures := 0, typeId := 1 }],
+    builtins := #[],
+    tuples := #[⟨none, []⟩, ⟨some "Ok", []⟩],
+    types := #[.int, .callable 0 0 0, .process (some 0) (some 0)],
+    resources := #[], compat := [], canon := #[] }
+
+/-- **Witness for F13**: the sweep before 5a04882 drops the index-only `Type::Process` entry, so in the
+    shaken program the pid's tag type has no entry (`tagPresent = false`: every type test / mailbox filter
+    on such a pid fails), although it has one in the source; the current sweep keeps it. Both are
+    structural renamings (`treeShakeLegacy_structRenaming`) — the break is in `TablesAgree`, which is why
+    (T1) cannot be had without it. -/
+theorem legacy_shake_loses_process_entry :
+    exF13.tagPresent (.proc 1) = true ∧
+    ((treeShakeWith true exF13 0).map (fun o => (o.prog.types.size, o.prog.tagPresent (.proc 1)))) = some (2, false) ∧
+    ((treeShake exF13 0).map (fun o => (o.prog.types.size, o.prog.tagPresent (.proc 1)))) = some (3, true) := by
   decide
 
 end C10
